@@ -24,36 +24,78 @@ ASSUMPTIONS_TCB = [
 PROPS = {}
 TWINS = {}     # verus fn label -> kani harness that searches for a concrete failing input of the same obligation
 
+# batches that are wired into checks (a batch under construction is simply not listed here yet)
+READY = ['core', 'eslice', 'op_eval', 'cfi_entries', 'cfi_unwind', 'line', 'attrs', 'units', 'lists', 'relocate',
+         'conv', 'filter', 'wcore', 'wreloc', 'wop']
+# batch -> batches whose items it re-verifies completely (so the smaller one need not run as well)
+SUPERSEDES = {'op_eval': ['op']}
+# tags that only quote another property's vocabulary inside a batch (not obligations of that property)
+IGNORE = {('filter', 'C01'), ('filter', 'C07'), ('wunit', 'C03'), ('wunit', 'C15'), ('wlists', 'C15'), ('conv', 'C05'), ('index', 'C09')}
 
-def prop(pid, batches, nd=''):
-    PROPS[pid] = {'batches': batches, 'nd': nd}
+ND = {
+    'C01': 'entry points not extracted (macros.rs, names.rs entry pool, Dwarf/DwarfSections loaders, DwarfPackage, ConvertUnit*), stack depth '
+           '(Verus models an unbounded stack), EndianReader over user buffer types, wall-clock time; see DESIGN.md 6 C01 and 11.',
+    'C02': 'whole-forest equality of the five traversal styles as a statement about sequences (only the step contracts are decided); '
+           'validity of DW_AT_sibling targets is an input well-formedness assumption; llvm-dwarfdump agreement.',
+    'C03': 'skip == read only in the direction skip Ok => same consumption; error kinds of primitive failures; llvm-dwarfdump agreement.',
+    'C04': 'rows equal the iterated line_step as a whole-sequence statement (per-instruction contracts + invariants are decided); '
+           'llvm-dwarfdump agreement.',
+    'C05': 'agreement of the three lookup paths with an exhaustive scan as a whole-section statement; readelf agreement.',
+    'C06': 'next_row equals iterated cfa_step over the decoded stream (needs a spec-level decoder); readelf agreement; '
+           'RegisterRuleMap capacities beyond the model.',
+    'C07': 'whole-program equality with a reference interpreter for arbitrary-length programs (follows from the step contracts by '
+           'induction, not mechanised); totality of steps whose operands are LEB128/address/offset/block sized.',
+    'C08': 'unit_ranges (needs the DIE cursor end to end); die_ranges single-range tombstone filtering is not part of the statement.',
+    'C09': 'u128/f32/f64 writers are not in the API; LEB128 functional value is proved by Kani on EndianSlice (complete) and assumed as the '
+           'contract of the delegating trait methods in Verus.',
+    'C10': 'EndianReader over arbitrary user buffer types (CloneStableDeref is the user\'s contract); AddressSanitizer-style whole-run '
+           'checks; positional clauses of EndianSlice are discharged by Kani on bounded buffers only.',
+    'C11': 'AbbreviationTable::add, StringTable, LineStringTable (IndexSet/IndexMap), Dwarf::write section order, and the end-to-end '
+           'statement "reads back as the same forest": only the size model and per-kind emission are decided.',
+    'C12': 'ConvertUnit*/entry-id maps, Expression::from body, ConvertLineProgram (needs the whole reader-side line machine), idempotence '
+           'of a second conversion, corpus round trips.',
+    'C13': 'LineProgram::write header/tables, LineString::write, add_file/add_directory identity (IndexMap).',
+    'C14': 'CIE de-duplication (IndexSet), whole-table round trip.',
+    'C15': 'Expression::write body (iterator adapters: assumed contract), evaluation equivalence (follows from decode equality).',
+    'C16': 'table de-duplication (IndexSet), end-to-end attr_ranges round trip.',
+    'C17': 'NameIndex::new layout beyond size arithmetic, NameEntry::parse, DwarfPackage assembly, loader wiring (closures), dwp corpus.',
+    'C18': 'that no parser/writer outside the extracted set uses a plain integer primitive for a relocatable field; the '
+           'event-to-lowered refinement argument of the relocating writer is stated, not mechanised.',
+    'C19': 'FilterUnit::read_entry parent stack, ConvertUnitSection::{new_with_filter, reserve_unit}, ConvertUnit::{read_entry, add_entry}, '
+           '"writing never fails for a missing reference", attribute equality with the unfiltered conversion.',
+    'C20': 'AbbreviationsCache (sort/dedup/retain closures, Arc, BTreeMap); "iterators are plain Clone values" is a type-system fact.',
+}
+
+
+def _discover():
+    import re
+    bdir = os.path.join(ROOT, 'vx', 'batches')
+    superseded = set(x for b in READY for x in SUPERSEDES.get(b, []))
+    for b in READY:
+        if b in superseded:
+            continue
+        t = open(os.path.join(bdir, b + '.py')).read()
+        for imp in SUPERSEDES.get(b, []):
+            t += open(os.path.join(bdir, imp + '.py')).read()
+        props = set(re.findall(r'\[(C\d\d):', t))
+        for line in t.splitlines():
+            if 'own' in line.lower():
+                props |= set(re.findall(r"'(C\d\d)'", line))
+        for p in sorted(props):
+            if (b, p) in IGNORE:
+                continue
+            PROPS.setdefault(p, {'batches': [], 'nd': ND.get(p, '')})['batches'].append(b)
 
 
 def kani_for(pid, tier):
     hs = json.load(open(os.path.join(ROOT, 'kani', 'harnesses.json')))['harnesses']
     out = []
     for h in hs:
+        if h.get('disabled'):
+            continue
         if pid in h['props'] and (tier == 'thorough' or h.get('tier', 'quick') == 'quick' and pid in h.get('quick_for', h['props'])):
             out.append(h)
     return out
 
 
-prop('C09', ['core', 'eslice'],
-     nd='u128/f32/f64 writers are not in the API. LEB128 functional value is proved by Kani on EndianSlice (complete) and assumed as the '
-        'contract of the R-DELEGATE trait methods in Verus; the generic leb128::read::* bodies are proved in Verus for safety, '
-        'termination, progress and frame only.')
-
-prop('C07', ['op'],
-     nd='whole-program equality with a reference interpreter for arbitrary-length programs (follows from the step contracts by '
-        'induction, not mechanised); nested call/entry-value evaluation is the caller\'s loop.')
-prop('C01', ['core', 'eslice', 'op'],
-     nd='entry points not extracted are listed in DESIGN.md 6 C01; stack depth is outside Verus (unbounded stack model).')
-
-prop('C10', ['core', 'eslice', 'op'],
-     nd='EndianReader over arbitrary user buffer types (the CloneStableDeref safety contract is the user\'s); AddressSanitizer-style '
-        'whole-run checks; positional clauses of EndianSlice are discharged by Kani on bounded buffers only.')
-
-prop('C05', ['cfi_entries'],
-     nd='agreement of the three lookup paths with an exhaustive scan (needs an iterator-as-sequence spec of the whole section); '
-        'UnwindSection::{fde_for_address, unwind_info_for_address} (trait default methods calling generic functions bounded by the '
-        'same trait: rejected by Verus as a cycle); readelf agreement.')
+_discover()
